@@ -204,11 +204,20 @@ def _node_of(x):
     return (var, [(r, _node_of(t) if isinstance(t, (list, tuple)) else t) for r, t in bs])
 
 
+def patient(fn, *args):
+    """fn(*args) under a generous alarm; a Timeout is retried once with a much longer limit, so that a loaded
+    machine is not mistaken for a hang (the second Timeout propagates and is reported under the key `hang`)."""
+    try:
+        return timed(fn, *args, seconds=20)
+    except Timeout:
+        return timed(fn, *args, seconds=90)
+
+
 def _canon_parse(fn, s):
     """('ok', node, metadata items) | ('DecodeError', lineno, offset) | ('hang',) | ('exc', name)"""
     from penman.exceptions import DecodeError
     try:
-        t = timed(fn, s, seconds=5)
+        t = patient(fn, s)
     except DecodeError as e:
         return ('DecodeError', e.lineno, e.offset)
     except Timeout:
@@ -252,18 +261,20 @@ def _impl_tree(item):
     for ind, cmp in OPTIONS:
         t = Tree(node, dict(meta))
         try:
-            s = timed(penman.format, t, ind, cmp, seconds=5)
+            s = patient(penman.format, t, ind, cmp)
         except Timeout:
-            out.append(('hang',))
+            out.append(('hang', 'format'))
             continue
         except Exception as e:                  # noqa
             out.append(('exc', type(e).__name__))
             continue
         rt = _canon_parse(penman.parse, s)
         try:
-            toks = timed(lambda: list(lex(s)), seconds=5)
+            toks = patient(lambda: list(lex(s)))
             res = _residue(s, toks)
             full = [(CODE[k.type], k.text, k.lineno, k.offset) for k in toks]
+        except Timeout:
+            full, res = 'hang', ''
         except Exception as e:                  # noqa
             full, res = None, 'lexer raised ' + type(e).__name__
         out.append(('ok', s, rt, full, res))
@@ -282,11 +293,17 @@ def _impl_string(s):
     for ind, cmp in OPTIONS:
         t = Tree(r[1], dict(r[2]))
         try:
-            s1 = timed(penman.format, t, ind, cmp, seconds=5)
+            s1 = patient(penman.format, t, ind, cmp)
+        except Timeout:
+            probs.append((ind, cmp, 'HANG: format does not return'))
+            continue
         except Exception as e:                  # noqa
             probs.append((ind, cmp, f'format raised {type(e).__name__}'))
             continue
         r1 = _canon_parse(penman.parse, s1)
+        if r1[0] == 'hang':
+            probs.append((ind, cmp, f'HANG: parse({s1!r}) does not return'))
+            continue
         if r1[0] != 'ok':
             probs.append((ind, cmp, f'formatted text {s1!r} is rejected: {r1}'))
             continue
@@ -442,9 +459,12 @@ def process_trees(chk, trees, lex_sample_every=7):
             mtext = d_str(m[2])
             if kind != 'nonwf':
                 chk.count((h, oi), nontrivial=in_domain and bool(node[1]))
-                if ti % 97 == 0:
-                    chk.stat(f'indent={ind}')
-                    chk.stat(f'compact={cmp}')
+                chk.stat(f'indent={ind}')
+                chk.stat(f'compact={cmp}')
+            if r[0] == 'hang':
+                chk.fail('hang', f'format(indent={ind}, compact={cmp}) does not return', case)
+                rt_all = False
+                continue
             if r[0] != 'ok':
                 if in_domain:
                     chk.fail('roundtrip', f'format does not return ({r})', case)
@@ -453,6 +473,10 @@ def process_trees(chk, trees, lex_sample_every=7):
                 rt_all = False
                 continue
             _, s, rt, full, res = r
+            if rt[0] == 'hang' or full == 'hang':
+                chk.fail('hang', f'{"parse" if rt[0] == "hang" else "lex"}({s!r}) does not return', dict(case, text=s))
+                rt_all = False
+                continue
             # ---- correspondence: format, parse(format), lex(format) ----
             if s != mtext:
                 chk.mismatch('format differs', case, s, mtext)
@@ -523,14 +547,16 @@ def process_strings(chk, strings, keep_trees):
         chk.count(('s', s), nontrivial=r[0] == 'ok')
         chk.stat('strings-' + ('accepted' if r[0] == 'ok' else 'rejected' if r[0] == 'DecodeError' else r[0]))
         mp = model_parse_canon(m)
-        if r != mp:
-            chk.mismatch('parse differs', {'text': s}, r, mp)
         if r[0] == 'hang':
             chk.fail('hang', f'parse({s!r}) does not return', {'text': s})
-        elif r[0] == 'exc':
+            continue
+        if r != mp:
+            chk.mismatch('parse differs', {'text': s}, r, mp)
+        if r[0] == 'exc':
             chk.fail('fixpoint', f'parse({s!r}) raised {r[1]} (neither a tree nor a DecodeError)', {'text': s})
         for ind, cmp, what in probs:
-            chk.fail('fixpoint', f'accepted input {s!r}, indent={ind}, compact={cmp}: {what}',
+            chk.fail('hang' if what.startswith('HANG') else 'fixpoint',
+                     f'accepted input {s!r}, indent={ind}, compact={cmp}: {what}',
                      {'text': s, 'indent': ind, 'compact': cmp})
         if r[0] == 'ok' and len(trees) < keep_trees:
             h = digest(r[1], r[2])
